@@ -286,7 +286,7 @@ func init() {
 	reg(&propDef{
 		ID: "C15",
 		Runs: []hrun{
-			{Pkg: walletPkg, Fn: "ZzC15L2", Tiers: "qt", Sched: true, Reach: []string{"c15-end", "reorg-1", "reorg-2", "duplicate-disconnect", "stale-disconnect", "wallet-tx-confirmed", "wallet-tx-unconfirmed-by-reorg", "reorg-started-during-rescan"}, Bound: "real handleChainNotifications goroutine; base height 10001; 2 evolutions from {extend, extend with wallet tx, reorg depth 1, reorg depth 2, duplicate disconnect, stale disconnect, reorg depth 2 whose first disconnect arrives while a rescan is running (missed by the wallet) and whose second one is for a block below the wallet's tip}"},
+			{Pkg: walletPkg, Fn: "ZzC15L2", Tiers: "qt", Sched: true, Reach: []string{"c15-end", "reorg-1", "reorg-2", "duplicate-disconnect", "stale-disconnect", "wallet-tx-confirmed", "wallet-tx-unconfirmed-by-reorg", "reorg-started-during-rescan", "out-of-order-connect", "reorg-entirely-during-rescan"}, Bound: "real handleChainNotifications goroutine; base height 10001; 2 evolutions from {out-of-order connect of two new blocks (second first: refused, then both in order), reorg of depth 1 entirely during a rescan (followed through the connect at the tip height), extend, extend with wallet tx, reorg depth 1, reorg depth 2, duplicate disconnect, stale disconnect, reorg depth 2 whose first disconnect arrives while a rescan is running (missed by the wallet) and whose second one is for a block below the wallet's tip}"},
 			{Pkg: walletPkg, Fn: "ZzC15Startup1", Tiers: "qt", Reach: []string{"c15-end", "wallet-tx-orphaned", "birthday-block-orphaned"}, Bound: "reorg of depth 1 while stopped (new branch same length or longer), wallet tx in any of 4 blocks, birthday block any of the 6 blocks the wallet knew (possibly orphaned itself), then syncWithChain"},
 			{Pkg: walletPkg, Fn: "ZzC15Startup2", Tiers: "qt", Reach: []string{"c15-end", "wallet-tx-orphaned", "birthday-block-orphaned"}, Bound: "depth 2 while stopped"},
 			{Pkg: walletPkg, Fn: "ZzC15Startup3", Tiers: "qt", Reach: []string{"c15-end", "wallet-tx-orphaned", "birthday-block-orphaned"}, Bound: "depth 3 while stopped"},
